@@ -527,6 +527,31 @@ fn api_compat_mode(args: &[String], holes: bool) {
                 if t2 != relabelled { println!("FAIL set_version altered the content {}", ctx); nfail += 1; if !survey { return; } else { continue 'docs; } }
             } else if f2.version() != v0 || f2.serialize().unwrap_or_default() != text { println!("FAIL a refused set_version changed the file {}", ctx); nfail += 1; if !survey { return; } else { continue 'docs; } }
         }
+        // the same content labelled with a version in which it is NOT valid, loaded leniently (the loader keeps the content and
+        // warns): the compatibility check must still report it for every target in which it is not valid
+        let invalid: Vec<AutosarVersion> = all_versions.iter().copied().filter(|v| c.avail & (*v as u32) == 0).collect();
+        let mut picks: Vec<AutosarVersion> = Vec::new();
+        if let Some(f) = invalid.first() { picks.push(*f); }
+        if let Some(l) = invalid.last() { if invalid.len() > 1 { picks.push(*l); } }
+        for v1 in picks {
+            let mislabelled = text.replace(v0.filename(), v1.filename());
+            let m3 = AutosarModel::new();
+            let Ok((f3, _)) = m3.load_buffer(mislabelled.as_bytes(), "l.arxml", false) else { continue };
+            let text3 = f3.serialize().unwrap_or_default();
+            for v in &all_versions {
+                let relabelled = text3.replace(v1.filename(), v.filename());
+                let strict = AutosarModel::new().load_buffer(relabelled.as_bytes(), "g.arxml", true);
+                let strict_ok = matches!(&strict, Ok((_, w)) if w.is_empty());
+                let why = match &strict { Err(e) => format!(" ({})", e), _ => String::new() };
+                let (errs, mask) = f3.check_version_compatibility(*v);
+                compared += 1;
+                if errs.is_empty() != strict_ok || v.compatible(mask) != strict_ok {
+                    println!("FAIL leniently loaded file: check_version_compatibility lists {} incompatibilities (mask {:#x}) but the relabelled file {} strict validation{} [{}; loaded leniently as {}, target {}] :: document {}",
+                             errs.len(), mask, if strict_ok { "passes" } else { "fails" }, why, c.what, v1.filename(), v.filename(), hex(mislabelled.as_bytes()));
+                    nfail += 1; if !survey { return; } else { continue 'docs; }
+                }
+            }
+        }
     }
     if nfail == 0 { println!("OK {} documents={} candidates={}", compared, built, total_cands); } else { println!("SURVEY failures={} documents={} candidates={}", nfail, built, total_cands); }
 }
